@@ -117,6 +117,7 @@ def _complete_task_frame(ctx):
 def complete_task():
     obls = [
         Obl("C02/guard/CompleteTask", P.only_marks_when(lambda ctx: None if task_guard(ctx, "RUNNING") is None else z3.Not(task_guard(ctx, "RUNNING"))), when="any"),
+        Obl("C10/absorb/CompleteTask", P.only_marks_when(lambda ctx: None if task_guard(ctx, "RUNNING") is None else z3.Not(task_guard(ctx, "RUNNING"))), when="any"),
         Obl("C02/frame/CompleteTask", _complete_task_frame, when="any"),
         Obl("C01/T1/CompleteTask", P.t1_processed_with_effects(), when="any"),
         Obl("C02/T1/CompleteTask", P.t1_processed_with_effects(), when="any"),
@@ -171,6 +172,7 @@ def _start_task_t2(ctx):
 def start_task():
     obls = [
         Obl("C02/guard/StartTask", P.only_marks_when(lambda ctx: None if task_guard(ctx, "NOT_STARTED") is None else z3.Not(task_guard(ctx, "NOT_STARTED"))), when="any"),
+        Obl("C10/absorb/StartTask", P.only_marks_when(lambda ctx: None if task_guard(ctx, "NOT_STARTED") is None else z3.Not(task_guard(ctx, "NOT_STARTED"))), when="any"),
         Obl("C01/T1/StartTask", P.t1_processed_with_effects(), when="any"),
         Obl("C02/T1/StartTask", P.t1_processed_with_effects(), when="any"),
         Obl("C09/T1/StartTask", P.t1_processed_with_effects(), when="any"),
@@ -356,6 +358,7 @@ def run_task():
         Obl("C14/transient-routed/RunTask.handle", _run_task_transient_routed, when="any"),
         Obl("C05/T5/RunTask.handle", _run_task_never_swallowed, when="any"),
         Obl("C02/guard/RunTask", _run_task_guard_false, when="any"),
+        Obl("C10/absorb/RunTask", _run_task_guard_false, when="any"),
         Obl("C02/gate/RunTask", _run_task_gate, when="any"),
         Obl("C17/run-task-gate", _run_task_gate, when="any"),
         Obl("C17/run-task-canceled", _run_task_canceled_path, when="any"),
@@ -1104,6 +1107,9 @@ def _ss_ready(ctx):
         return []
     claim = _ss_claim_txns(ctx)
     starting = [e for e in _ss_starting_effects(ctx) if e.kind != "store_stage"] + [t for t in claim]
+    # a SkipStage sent from here finishes the stage as SKIPPED, which releases its downstream stages exactly like a run
+    # would: it is 'starting' too and must be dominated by READY (seed C03-G)
+    starting += [e for e, _ in T.flat(ctx.st.effects) if e.kind in ("push", "queue_push") and e.data["cls"] == "SkipStage"]
     if not starting:
         return []
     rds = [e for e in ctx.st.effects if e.kind == "readiness"]
